@@ -24,7 +24,7 @@ attribute [simp] isAck
 
 @[simp] theorem ak_sendMessage (e : Ep) (m : Msg) :
     acksOf (sendMessage e m).emitted = acksOf e.emitted ++ acksOf [m] := by
-  simp [sendMessage, kaReset, idleReset]
+  simp [sendMessage, sendReady, kaReset, idleReset]
 
 @[simp] theorem ak_kaReset (e : Ep) : acksOf (kaReset e).emitted = acksOf e.emitted := by first | rfl | simp [sendContact, sendInit, sendReject, flushPendStart, mergeSession]
 @[simp] theorem ak_idleReset (e : Ep) : acksOf (idleReset e).emitted = acksOf e.emitted := by first | rfl | simp [sendContact, sendInit, sendReject, flushPendStart, mergeSession]
